@@ -2,7 +2,7 @@
 import numpy as np
 
 from sim.core import Violation, Inconclusive, InjectedAbort, RandomProxy, patched_random, close6
-from sim.models import rare_catastrophe_spec, gen_mdp_spec, MDPView, make_mdp, sibling_mdp_spec
+from sim.models import nested_variant_spec, rare_catastrophe_spec, gen_mdp_spec, MDPView, make_mdp, sibling_mdp_spec
 from sim.refsolve import optimal_values, evaluate
 from sim.heur import gen_heuristic, build_heuristic
 from sim.ctx import RunCtx, make_scheduler, gen_sched
@@ -46,6 +46,8 @@ def gen_case(rng, tier, idx):
     h['at_abs'] = abs(h['at_abs'])       # C03's heuristics never under-estimate, absorbing states (worth 0) included
     cfg = dict(heur=h, rao=rng.random() < 0.7, rno=rng.random() < 0.7, seed=rng.choice((0, 1, 2, 77, None)),
                reuse=rng.randrange(1000) if rng.random() < 0.15 else None, alias=rng.choice(('fresh', 'fresh', 'cached', 'shared', 'tuple')), cap_exact=rng.random() < 0.3)
+    if rng.random() < 0.1:
+        cfg.update(nest=rng.randrange(1000), cap_exact=False)       # (the F7 replay re-uses the decision log of one uninterrupted run)
     if rng.random() < 0.01:
         # a 1e-9 branch into a pit that costs 1e10 to leave: a successor can be nearly impossible and still decide the optimum
         spec = rare_catastrophe_spec(rng)
@@ -60,7 +62,7 @@ def execute(case, script=None):
     view = MDPView(case['spec'])
     ctx = RunCtx(PROP, view)
     ctx.declare_probes('listener_events', 'absorbing_initial_state', 'multi_initial',
-                       'undiscounted', 'tie_between_actions', 'nonzero_heuristic_at_absorbing', 'planner_reused', 'iteration_cap_exact', 'rerun_after_abort')
+                       'undiscounted', 'tie_between_actions', 'nonzero_heuristic_at_absorbing', 'planner_reused', 'iteration_cap_exact', 'rerun_after_abort', 'nested_run')
     sched = make_scheduler(case, script, ctx)
     try:
         return _execute(lao, view, case['cfg'], ctx, sched)
@@ -144,7 +146,34 @@ def _execute(lao, view, cfg, ctx, sched):
                         pass
                 state['main'] = True
             state['log0'] = len(sched.log)
+            hookN = None
+            if cfg.get('nest') is not None:
+                # fault F10: at the k-th model call-back of the real run, ANOTHER planner object (same class, same seed and
+                # options) plans another problem with the same state and action keys (other absorbing set / discount, probabilities, rewards) to completion
+                nsp = nested_variant_spec(view.spec, cfg['nest'])
+                nv = MDPView(nsp)
+                if all(s_ in nv.absorbing for s_ in range(nv.N)):
+                    nv = view            # (a sibling without any decision left: nest the problem itself)
+                nV, _ = optimal_values(nv)
+                nh = build_heuristic(cfg['heur'], nv, nV)
+
+                def nested():
+                    ctx.probe('nested_run')
+                    state['main'] = False
+                    try:
+                        rn = lao.LAOStar(heuristic=lambda s: nh[sid[s]], seed=cfg['seed'], randomize_action_order=cfg['rao'],
+                                         randomize_nextstate_order=cfg['rno'], max_lao_star_iterations=100, event_listener_class=L).plan_on(make_mdp(nv, None))
+                        for _s in range(view.N):
+                            try:
+                                rn.policy.action_dist(sk[_s])
+                            except Exception:
+                                pass
+                    finally:
+                        state['main'] = True
+                hookN = ctx.nest_after(1 + cfg['nest'] % 40, nested)
             r = planner.plan_on(mdp)
+            if hookN is not None:
+                ctx.disarm(hookN)
         except (Violation, Inconclusive):
             raise
         except Exception as e:
